@@ -65,13 +65,24 @@ func (sp *symptr) concretePtr() *value {
 func symIndexAddr(elems []value, idx *sym) value {
 	n := len(elems)
 	var oob *smt.Term
-	nT := termOf(concOf(idx.k, uint64(n)), idx.k)
-	if X.IntMode {
-		oob = smt.Or(smt.ILt(idx.t, smt.IntConst64(0)), smt.IGe(idx.t, nT))
-	} else if kindSigned(idx.k) {
-		oob = smt.Or(smt.BVSlt(idx.t, smt.BVConst(0, kindWidth(idx.k))), smt.BVSge(idx.t, nT))
+	w := kindWidth(idx.k)
+	fitsN := true // n representable in idx's type
+	if kindSigned(idx.k) {
+		fitsN = w >= 64 || uint64(n) < uint64(1)<<uint(w-1)
 	} else {
-		oob = smt.BVUge(idx.t, nT)
+		fitsN = w >= 64 || uint64(n) < uint64(1)<<uint(w)
+	}
+	switch {
+	case X.IntMode:
+		oob = smt.Or(smt.ILt(idx.t, smt.IntConst64(0)), smt.IGe(idx.t, smt.IntConst64(int64(n))))
+	case kindSigned(idx.k) && fitsN:
+		oob = smt.Or(smt.BVSlt(idx.t, smt.BVConst(0, w)), smt.BVSge(idx.t, smt.BVConst(uint64(n), w)))
+	case kindSigned(idx.k):
+		oob = smt.BVSlt(idx.t, smt.BVConst(0, w))
+	case fitsN:
+		oob = smt.BVUge(idx.t, smt.BVConst(uint64(n), w))
+	default:
+		oob = smt.False()
 	}
 	if X.Guard(oob) {
 		panic(runtimeErr(fmt.Sprintf("index out of range [symbolic] with length %d", n)))
